@@ -294,6 +294,17 @@ def c11c(tree, ob):
                        'forwarding path and leaves the node as it arrived (a hop count is not advanced)'.format(cname, cname), raising[0])
         else:
             ob.site(BLOCKS, cls, cname + ' decodes whatever values arrive')
+    # ... and the block decoder attaches every payload that decodes: it does not refuse one itself (e.g. because the decoded
+    # form would encode to other octets than arrived -- the data of an extension block is any valid CBOR, not this
+    # implementation's spelling of it)
+    if tree.has_func(BLOCKS, 'CanonicalBlock.post_dissect'):
+        pd = tree.func(BLOCKS, 'CanonicalBlock.post_dissect')
+        own = [r for t in walk_local(pd) if isinstance(t, ast.Try) for st in t.body for r in ast.walk(st) if isinstance(r, ast.Raise)]
+        if own:
+            ob.violate(BLOCKS, 'CanonicalBlock.post_dissect', src(own[0])[:70], 'the block decoder refuses a payload that did decode (the surrounding handler then leaves the block opaque): a Hop Count block '
+                       'in a valid but other CBOR form (indefinite-length array, wider integer head) is not found on the forwarding path and leaves with the count it arrived with', own[0], sure=True)
+        else:
+            ob.site(BLOCKS, pd, 'CanonicalBlock.post_dissect attaches every payload that decodes')
     # hop count
     if not kinds.get('HopCountBlock'):
         loose = [n for n in walk_local(fv.func) if isinstance(n, ast.AugAssign) and src(n.target).endswith('.payload.count')]
